@@ -131,6 +131,8 @@ func c03Base(c *core.Ctx) c03Case {
 	k.recips = []fieldVal{ok(so.SPACS)}
 	if c.Rng.Intn(3) == 0 {
 		k.recips = append(k.recips, ok(so.SPACS))
+	} else if c.Rng.Intn(6) == 0 {
+		k.recips = nil // an assertion without subject confirmations: no Recipient to check
 	}
 	for n := c.Rng.Intn(4); n > 0; n-- {
 		k.auds = append(k.auds, ok(c03Own(k.entityID)))
@@ -162,6 +164,9 @@ func c03Deviate(c *core.Ctx, k *c03Case, field, variant int) {
 	case 1:
 		k.aIssuer = pickV(nearMisses(so.IDPEntity))
 	case 2:
+		if len(k.recips) == 0 {
+			return
+		}
 		i := c.Rng.Intn(len(k.recips))
 		k.recips[i] = pickV(nearMisses(so.SPACS))
 	case 3:
@@ -276,6 +281,9 @@ func c03Run(c *core.Ctx, o *so.Oracle, k c03Case) {
 	}
 	s1 := fx.K("idp_s1")
 	a := o.Assertion(so.AssertionSpec{RequestID: "req-1"})
+	if len(k.recips) == 0 {
+		a.Subject.SubjectConfirmations = nil
+	}
 	if len(k.recips) == 2 {
 		sc := a.Subject.SubjectConfirmations[0]
 		d := *sc.SubjectConfirmationData
